@@ -166,7 +166,8 @@ BENIGN_HTML = ["c", "&amp;", "a&#10;b", "", "p q", "&lt;i&gt;", "x;"]
 def values():
     plain = gen.any_text()
     htmlv = st.one_of(st.sampled_from(BENIGN_HTML), st.sampled_from(BENIGN_HTML), gen.any_text()).map(lambda s: {"html": s})
-    return st.one_of(plain, plain, plain, htmlv, htmlv, gen.numbers(), st.sampled_from([True, False, None, 0, ""]))
+    strsub = gen.any_text().map(lambda t: {"strsub": t})  # StrEnum members, typed id strings: plain strings
+    return st.one_of(plain, plain, plain, htmlv, htmlv, gen.numbers(), st.sampled_from([True, False, None, 0, ""]), strsub)
 
 
 def str_values():
@@ -225,6 +226,10 @@ def case_strategy():
 def val_obj(v):
     import htmltools as h
 
+    if isinstance(v, dict) and "strsub" in v:
+        from hv.build import StrSub
+
+        return StrSub(v["strsub"])
     if isinstance(v, dict):
         return h.HTML(v["html"])
     return v
@@ -235,6 +240,8 @@ def part_of(v):
         return None
     if v is True:
         return ("plain", "")
+    if isinstance(v, dict) and "strsub" in v:
+        return ("plain", v["strsub"])
     if isinstance(v, dict):
         return ("html", v["html"])
     if isinstance(v, str):
@@ -364,6 +371,8 @@ def walk_open_tag(out: str, pos: int, name: str, model: dict, label: str):
 
 
 def body_history(case, note):
+    import json as _json
+
     import htmltools as h
 
     if case.get("prior"):
@@ -408,6 +417,7 @@ def body_history(case, note):
         "prior-text-render" if case.get("prior") else "",
         "on-raw-text-element" if name.lower() in ("script", "style") else "",
         "on-other-element" if case.get("elem") else "",
+        "str-subclass-value" if '"strsub"' in _json.dumps(case) else "",
     )
 
 
@@ -438,7 +448,7 @@ CLAUSES = [
         quick=1500,
         thorough=20000,
         shards_quick=4,
-        required=("merged-plain-x-html-with-metachar", "op:update", "op:set", "op:add_class", "op:add_style", "benign-readback", "prior-text-render", "on-raw-text-element", "on-other-element"),
+        required=("merged-plain-x-html-with-metachar", "op:update", "op:set", "op:add_class", "op:add_style", "benign-readback", "prior-text-render", "on-raw-text-element", "on-other-element", "str-subclass-value"),
         rule="a plain part with a metacharacter",
         fuzz=60000,
     ),
